@@ -34,17 +34,19 @@ struct Fam {
     const char* name;
     bool has_periodic;
     const char* pkey;              // name of the shape parameter (nullptr: none)
-    std::vector<double> params;
+    std::vector<double> params;    // both tiers
+    std::vector<double> extra;     // thorough tier only (edge values of the stated parameter ranges and a denser grid)
 };
 static const Fam FAMS[W_NFAM] = {
-  {"cosine", true, nullptr, {0}},
-  {"hann", true, nullptr, {0}},
-  {"hamming", true, nullptr, {0}},
-  {"blackman", true, nullptr, {0}},
-  {"blackmanharris", true, nullptr, {0}},
-  {"gauss", true, "alpha", {0.5, 1, 2.5, 4, 6}},
-  {"tukey", false, "r", {-0.5, 0, 0.1, 0.25, 0.5, 0.75, 0.99, 1, 1.5}},
-  {"kaiser", false, "beta", {0, 0.5, 1, 2, 5, 8, 10, 14, 20, 30, 38, 40}},
+  {"cosine", true, nullptr, {0}, {}},
+  {"hann", true, nullptr, {0}, {}},
+  {"hamming", true, nullptr, {0}, {}},
+  {"blackman", true, nullptr, {0}, {}},
+  {"blackmanharris", true, nullptr, {0}, {}},
+  {"gauss", true, "alpha", {0.5, 1, 2.5, 4, 6}, {0.75, 1.5, 2, 3, 3.5, 5, 5.5}},
+  {"tukey", false, "r", {-0.5, 0, 0.1, 0.25, 0.5, 0.75, 0.99, 1, 1.5},
+   {-1e-9, 1e-9, 0.01, 1.0 / 3, 0.6, 0.9, 0.999999, 1.000001, 1.25}},
+  {"kaiser", false, "beta", {0, 0.5, 1, 2, 5, 8, 10, 14, 20, 30, 38, 40}, {3, 6, 7.5, 12, 25, 45, 50, 60}},
 };
 
 // kaiser argument s_i = sqrt(1 - t^2), t = (2i - (n-1)) / (n-1), computed as sqrt((1-t)(1+t))
@@ -109,11 +111,11 @@ static P win_params(int fam, int n, double p, int sym) {
 
 static void check_windows(Ctx& ctx, bool T) {
     std::vector<int> lens;
-    for (int n = 3; n <= (T ? 1024 : 256); ++n) lens.push_back(n);
+    for (int n = 3; n <= (T ? 2048 : 256); ++n) lens.push_back(n);
     if (T) {
-        for (int n : {4096, 65536, 99999, 100000}) lens.push_back(n);   // 1000, 1001 are inside 3..1024
+        for (int n : {4096, 4097, 65536, 99999, 100000}) lens.push_back(n);   // 1000, 1001 are inside 3..2048
     } else {
-        for (int n : {1000, 1001, 4096, 65536}) lens.push_back(n);
+        for (int n : {1000, 1001, 4096, 4097, 65536, 100000}) lens.push_back(n);   // the big sizes of the quick tier
     }
     const double TOL = 1e-12, RTOL = 4 * EPS, STOL = 2 * EPS;
 
@@ -121,7 +123,9 @@ static void check_windows(Ctx& ctx, bool T) {
         for (int fam = 0; fam < W_NFAM; ++fam) {
             const Fam& F = FAMS[fam];
             const std::string nm = F.name;
-            for (double p : F.params) {
+            std::vector<double> plist = F.params;
+            if (T) plist.insert(plist.end(), F.extra.begin(), F.extra.end());
+            for (double p : plist) {
                 const bool triv = win_trivial(fam, p);
                 auto guarded = [&](const char* site, int len, bool sym, arr_real& w) -> bool {
                     try {
@@ -299,20 +303,35 @@ static P fir_params(int type, int n, const Cut& c, int kind) {
 
 static void check_fir(Ctx& ctx, bool T) {
     std::vector<int> orders;
-    for (int n = 2; n <= (T ? 256 : 128); ++n) orders.push_back(n);
+    for (int n = 2; n <= (T ? 512 : 128); ++n) orders.push_back(n);
     if (T) {
-        for (int n : {300, 400, 500, 750, 1000, 1500, 2000}) orders.push_back(n);
+        for (int n : {600, 750, 1000, 1500, 2000, 3000, 4096, 5001}) orders.push_back(n);
     } else {
-        for (int n : {500, 1000}) orders.push_back(n);
+        for (int n : {500, 1000, 4096, 5001}) orders.push_back(n);   // 4096 / 5001: the big sizes of the quick tier
     }
     std::vector<Cut> single, pairs;
-    // low/high cut-offs: 0.02..0.98 step 0.005 (thorough) / 0.02 (quick); band edges on a 0.025 / 0.05 grid
-    for (int i = 20; i <= 980; i += (T ? 5 : 20)) single.push_back({i / 1000.0, 0});
+    // low/high cut-offs: 0.02..0.98 step 0.0025 (thorough; contains 0.25, 0.5, 0.75 exactly) / 0.02 (quick);
+    // band edges on a 0.025 / 0.05 grid
+    if (T) {
+        for (int i = 8; i <= 392; ++i) single.push_back({i / 400.0, 0});
+        // off-grid values and the ends of the open interval (0, 1)
+        for (double w : {0.001, 0.005, 0.01, 0.99, 0.995, 0.999, 1.0 / 3, 2.0 / 3, 0.3183098861837907, 0.7071067811865476, 0.123456789})
+            single.push_back({w, 0});
+    } else {
+        for (int i = 20; i <= 980; i += 20) single.push_back({i / 1000.0, 0});
+    }
     const int PG = T ? 40 : 20;
     for (int i = 1; i < PG; ++i)
         for (int j = i + 1; j < PG; ++j) pairs.push_back({(double)i / PG, (double)j / PG});
-    RespTab tab;
-    tab.init(T ? 4096 : 1024);
+    if (T) {   // very narrow bands (edges almost equal), bands reaching the ends of (0, 1), an off-grid pair
+        const Cut ex[] = {{0.1, 0.101}, {0.25, 0.251}, {0.5, 0.501}, {0.749, 0.75}, {0.001, 0.999}, {0.001, 0.002},
+                          {0.998, 0.999}, {1.0 / 3, 2.0 / 3}, {0.3183098861837907, 0.7071067811865476}};
+        for (const Cut& c : ex) pairs.push_back(c);
+    }
+    // mask grids: quick 1025 points (4097 for the two big orders); thorough 4097 points (8193 above order 1024)
+    RespTab tabS, tabB;
+    tabS.init(T ? 4096 : 1024);
+    tabB.init(T ? 8192 : 4096);
     static const char* FTN[5] = {"NonlinearPhase", "EvenSymm", "OddSym", "EvenAntiSym", "OddAntiSym"};
 
     for (int n : orders) {
@@ -443,6 +462,7 @@ static void check_fir(Ctx& ctx, bool T) {
                         if (wide && ctx.take(c_mask.c_str(), fir_params(type, n, c, kind))) {
                                 if (get()) {
                                 ctx.nontrivial();
+                                const RespTab& tab = n > 1024 ? tabB : tabS;
                                 const double tw = 4.0 / (n + 1) * (1 + 1e-12);
                                 double wp = 0, wsb = 0, fp = 0, fs = 0;
                                 for (int g = 0; g <= tab.G; ++g) {
